@@ -514,11 +514,11 @@ def explore(ctx, widen=1):
         if c.get('unit') == 'sweep':
             replay_sweep(ctx, c)
     ctx.differential('pav-boundary', gen_pav_boundary(ctx.rng), model_line, impl, **kw)
-    ctx.differential('pav-seq', gen_pav(ctx.rng, ctx.n(250, 4000) * widen), model_line, impl, **kw)
-    ctx.differential('borda-seq', gen_borda(ctx.rng, ctx.n(300, 5000) * widen), model_line, impl, **kw)
+    ctx.differential('pav-seq', gen_pav(ctx.rng, ctx.n(400, 4000) * widen), model_line, impl, **kw)
+    ctx.differential('borda-seq', gen_borda(ctx.rng, ctx.n(500, 5000) * widen), model_line, impl, **kw)
     ctx.differential('seeded', list(gen_seeded(ctx.rng, ctx.n(400, 6000) * widen)), model_line, impl, **kw)
     ctx.differential('multistage', gen_ms(ctx.rng, ctx.n(400, 6000) * widen), model_line, impl, **kw)
-    run_sweep(ctx, ctx.n(6, 60) * (2 if widen > 1 else 1), first_seed=ctx.seed * 1000)
+    run_sweep(ctx, ctx.n(10, 60) * (2 if widen > 1 else 1), first_seed=ctx.seed * 1000)
     check_module_state(ctx, before)
 
 
